@@ -5,7 +5,7 @@ import tempfile
 from harness import tlc
 
 BASE = dict(NT=2, NW=2, MaxRep=2, MaxRuns=2, MaxFail=1, Kind="pause", Async=True, Wait=False, Del=True,
-            FailB=1, ExtB=0, CKind="script", K=0, EmptyExit=False, MayExhaust=False, R3=True, R13=True)
+            FailB=1, ExtB=0, CKind="script", K=0, EmptyExit=False, MayExhaust=False, R3=True, R13=True, R8=True)
 
 ALL_INVARIANTS = {
     "C01": ["WorkerBudget", "IdsInSequence", "LifeCycle", "ResumeOnlyPaused", "CallbackProtocol"],
@@ -32,7 +32,7 @@ FLAG_INV = {
     "left_running": "NothingRunningAtReturn", "no_stop_all": "NothingRunningAtReturn", "counters": "CountersMatch",
     "error_not_failed": "FailureContained", "resume_failed_run": "FailureContained",
     "failure_limit": "FailureLimit", "failure_not_named": "FailureLimit", "failure_not_notified": "FailureNotifiedOnce",
-    "delete_live": "DeleteOnlyWhenDead", "copy_missing": "CopySourceExists", "resume_ckpt_missing": "ResumeSourceExists",
+    "delete_live": "DeleteOnlyWhenDead", "copy_missing": "CopySourceExists", "copy_missing_stopped_while_queued": "CopySourceExists", "resume_ckpt_missing": "ResumeSourceExists",
     "stop_without_decision": "StopPauseDecided", "pause_without_decision": "StopPauseDecided",
 }
 PROP_FLAGS = {p: sorted(f for f, i in FLAG_INV.items() if i in invs) for p, invs in ALL_INVARIANTS.items()}
@@ -52,6 +52,7 @@ def mc_configs(tier):
     c["crit_finished"] = dict(BASE, NT=3, Kind="stop", MaxRuns=1, CKind="finished", K=1, FailB=1, MaxFail=2)
     c["crit_evals"] = dict(BASE, NT=2, Kind="pause", CKind="evals", K=2, FailB=0)
     c["exhaust"] = dict(BASE, NT=2, Kind="pause", MayExhaust=True, FailB=0)
+    c["pbt_3t"] = dict(BASE, NT=3, Kind="pbt", MaxRuns=1, FailB=0)
     if tier == "thorough":
         c["pause_3t"] = dict(BASE, NT=3)
         c["pause_2t_3rep"] = dict(BASE, MaxRep=3, MaxRuns=3)
